@@ -22,7 +22,7 @@ pub const ENTRY: Entry = Entry {
            each input). Per transition: only the setter's own bits change; per state: byte == MIPI table (B7 MY, B6 MX, B5 MV derived \
            from the C01 geometry, B4 bottom-to-top, B3 BGR, B2 right-to-left, B1..0 zero) of the last values, hence order \
            independence; the byte put on the bus by write_command equals fill_params_buf; and the 0x36 parameter actually \
-           sent by every built-in model's init and by every later set_orientation is that encoding. Non-trivial = transitions that change the byte.",
+           sent by every built-in model's init and by every later set_orientation (also one that follows a set_orientation whose bus operation failed) is that encoding. Non-trivial = transitions that change the byte.",
     assumptions: &["MY/MX/MV per orientation are derived from the geometric specification (spec.rs), not from the driver's table"],
     run,
 };
@@ -189,6 +189,25 @@ fn run(ctx: &Ctx) -> Part {
                             if !out.is_ok() || rig.ctl.madctl != spec(o2) {
                                 bad = Some(format!("set_orientation({o2}) after {o1}: outcome {out:?}, MADCTL on the bus {:08b}, encoding of the inputs is {:08b}", rig.ctl.madctl, spec(o2)));
                                 break 'o;
+                            }
+                        }
+                    }
+                    // a set_orientation whose command fails, then one that goes through: the byte on the bus is
+                    // still the encoding of (configured colour order, new orientation, configured refresh order)
+                    if bad.is_none() {
+                        for o1 in 0..8u8 {
+                            let o2 = (o1 + 5) % 8;
+                            acc.evaluations += 1;
+                            acc.nontrivial += 1;
+                            let at = rig.ops();
+                            rig.set_faults(&[Fault { at, mode: FaultMode::Unchanged }]);
+                            let failed = rig.apply(&Op::SetOrientation(o1));
+                            rig.set_faults(&[]);
+                            let out = rig.apply(&Op::SetOrientation(o2));
+                            acc.count("orientation_after_failed_orientation", 1);
+                            if !out.is_ok() || rig.ctl.madctl != spec(o2) {
+                                bad = Some(format!("set_orientation({o1}) with its bus operation failing ({failed:?}), then set_orientation({o2}): outcome {out:?}, MADCTL on the bus {:08b}, encoding of the inputs is {:08b}", rig.ctl.madctl, spec(o2)));
+                                break;
                             }
                         }
                     }
